@@ -51,7 +51,24 @@ def check_match_form(ctx, c, name, rb, n, dec):
             return False
         tbb, tt = mine[0]
         key = dt.resolve_const(rb, tt["args"][1])
-        val_ok = Tracer(rb).root_locals(tt["args"][2]) == {n}
+        if rb.kind == "coroutine":
+            # an async helper: its parameters are the fields of the coroutine state (_1.k = parameter k+1)
+            fs = set()
+            for s_ in Tracer(rb).sources(tt["args"][2]):
+                inner = None
+                while s_[0] == "field":
+                    inner = s_
+                    s_ = s_[1]
+                if s_ == ("arg", 1) and inner is not None:
+                    for e in thaw(inner[2]):
+                        if isinstance(e, dict) and "f" in e:
+                            fs.add(e["f"])
+                            break
+                else:
+                    fs.add(None)
+            val_ok = fs == {n - 1}
+        else:
+            val_ok = Tracer(rb).root_locals(tt["args"][2]) == {n}
         # on the Err edge of the decoder result, the tagged error is what is returned as Err
         on_err = any(dt.switch_atom(rb, sbb)[0] == "discr" and dt.derives_from_call(rb, {"cp": place_local(dt.switch_atom(rb, sbb)[1])}, dbb, vt)
                      and dt.allowed_variants(al, av, ["Ok", "Err"]) == {"Err"} for sbb, al, av in dt.edge_conditions(cfg, tbb))
